@@ -91,7 +91,7 @@ fn count_restarts_per_installation() {
         ctr.store(c, Ordering::SeqCst); // calls absorbed by earlier installations of this call site
         let raw = pair.0.__verif_raw();
         inj.when_called(FuncPtr::new(f as *const (), "fn() -> bool")).will_execute(pair);
-        assert!(ctr.load(Ordering::SeqCst) == 0, "VERIF[C07]: calls absorbed by an earlier installation of the same fake! expression still count toward this installation");
+        assert!(ctr.load(Ordering::SeqCst) == 0, "VERIF[C07,C05]: calls absorbed by an earlier installation of the same fake! expression (whatever way it ended) still count toward this installation");
         let fk: fn() -> bool = std::mem::transmute::<*const (), fn() -> bool>(raw);
         let mut i = 0;
         while i < 2 {
